@@ -116,3 +116,34 @@ Definition view_facilities (g : graph) : list str := dict_view (facilities_view 
 Definition view_links (g : graph) : list str := dict_view (of_class KLink g).
 Definition view_services (g : graph) : list str := dict_view (of_class KNS g).
 Definition view_interface_list (g : graph) : list str := flat_map (node_ifs g) (view_nodes g).
+
+(* ---- the declarative statement ------------------------------------------------------------------------ *)
+(* rule 1 *)
+Definition fields_P (n : node) : Prop := exists t nm, ntyp n = Some t /\ nname n = Some nm.
+(* class and type from the published vocabularies *)
+Definition vocab_P (n : node) : Prop :=
+  exists c, class_name (ncls n) = Some c /\ In c rule_classes /\
+            forall v t, assoc_str c rule_types = Some v -> ntyp n = Some t -> In t v.
+Definition edge_ends_P (g : graph) (e : edge) : Prop :=
+  (exists n, In n (gnodes g) /\ nid n = ea e) /\ (exists n, In n (gnodes g) /\ nid n = eb e).
+Definition edges_distinct (l : list edge) : Prop :=
+  ForallOrdPairs (fun e e' => same_ends e' (ea e) (eb e) = false) l.
+(* containment structure of one element *)
+Definition struct_P (g : graph) (n : node) : Prop :=
+  (ncls n = KComp -> length (comp_owners g (nid n)) = 1) /\
+  (ncls n = KCP ->
+     length (cp_owners g (nid n)) = 1 /\
+     (forall j, In j (first_nb g (nid n) Connects KCP) -> typ_is g (nid n) sSubInterface <> typ_is g j sSubInterface) /\
+     (ntyp n = Some sServicePort -> length (peers g (nid n)) = 1)) /\
+  (ncls n = KLink -> forall j r, In (j, r) (nbrs g (nid n)) -> r = Connects /\ cls_is g j KCP = true).
+(* no two elements of one class and one scope carry the same name *)
+Definition names_P (g : graph) : Prop := ForallOrdPairs (fun a b => name_clash g a b = false) (gnodes g).
+
+Record WF (g : graph) : Prop := mkWF {
+  wf_fields : forall n, In n (gnodes g) -> fields_P n;
+  wf_vocab : forall n, In n (gnodes g) -> vocab_P n;
+  wf_ids : NoDup (map nid (gnodes g));
+  wf_edge_ends : forall e, In e (gedges g) -> edge_ends_P g e;
+  wf_edges_distinct : edges_distinct (gedges g);
+  wf_struct : forall n, In n (gnodes g) -> struct_P g n;
+  wf_names : names_P g }.
